@@ -418,4 +418,5 @@ func runC02(r *Run) {
 		c02MonitorCase(c, rng, spec, rng.Chance(25), rng.Range(3, 8))
 	})
 	runC02Exec(r)
+	r.Cases(200000, r.N(60, 600), 0, func(c *Case, rng *Rng) { c02ConcCase(c, rng) })
 }
